@@ -124,8 +124,10 @@ def main(ck):
     S = kin.snap(m)
     q0, v0 = np.array(d.qpos), np.array(d.qvel)
     k = kin.fk(S, q0)
-    labels = list(gm.labels()) + gs.classify(lib, m) + ['gravity:' + gm.info['gravity']]
-    grav_on = gm.info['gravity'] != 'off'
+    gvec = np.array(m.opt.gravity)
+    gname = 'off' if not np.any(gvec) else ('on' if not np.any(gvec[:2]) else 'tilt')
+    labels = gs.brief(gm.labels(), ('spring:', 'tendon:')) + gs.classify(lib, m) + ['gravity:' + gname]
+    grav_on = gname != 'off'
 
     # ---------------- (c) energies vs reference
     M = lib.fullM(m, d)
@@ -340,6 +342,8 @@ def main(ck):
       ck.extra['observed_' + key] = dict(n=len(orders), min=min(orders), median=float(np.median(orders)), max=max(orders))
   ck.extra['tolerances'] = dict(K_E=K_E, TOL_GRAD=TOL_GRAD, ORDER=[ORDER_LO, ORDER_HI], NSTEP=NSTEP)
 
+
+replay = gs.make_replay(main)
 
 LEVEL = 'exploration'
 TECHNIQUE = ('property-based testing with invariants (energy, momentum) under timestep refinement (metamorphic: h, h/2, '
